@@ -1,6 +1,8 @@
 import BigDec.Model.Fmt
 import BigDec.Model.Parse
 import BigDec.Proofs.Render
+import BigDec.Proofs.RenderEng
+import BigDec.Proofs.DisplayLen
 import BigDec.Proofs.Value
 import BigDec.Props.C05
 /-! # C04 — every textual rendering parses back to the same decimal
@@ -13,8 +15,9 @@ the very same `(int, scale)` pair — for every decimal, not a sample.  Hypothes
 has: memory).  Renderings covered for all inputs: `to_scientific_notation`, `to_plain_string`
 (non-negative scale; a negative scale is the recorded finding K1), `{:e}`/`{:E}`, and `Display`
 (all three notations it chooses between; an integer written out with its zeros reads back with
-scale 0, the exemption the property names).  Still partial: engineering notation and the flagged
-forms are established per generated input only. -/
+scale 0, the exemption the property names), and engineering notation (same value).  The
+length bound of Display is `C04_display_length`; the reference-view entry points (same formatter
+through `BigDecimalRef`) are tied to the code by the correspondence. -/
 namespace BigDec
 open Fmt Parse
 
@@ -68,6 +71,18 @@ theorem C04_display_identical_of_nonneg_scale (cfg : Config) (npl : Nat) (d : De
   rcases C04_display_roundtrip cfg npl d h with h1 | ⟨hneg, _⟩
   · exact h1
   · omega
+
+/-- engineering notation always reads back with the same value (it regroups the digits in
+    threes, so the scale may differ - the exemption the property names) -/
+theorem C04_engineering_value (d : Dec) (h : d.Storable) (hs : d.scale < 2 ^ 63 - 2) :
+    ∃ r, parseDec (toBytes (engineering d)) 10 = some r ∧ r.value = d.value := by
+  rw [C05_parse_eq_spec]; exact engineering_roundtrip d ⟨h.1, hs⟩ h.2.2
+
+/-- Display switches to exponent notation beyond the thresholds instead of emitting long runs of
+    zeros: its length stays within a small constant of the digit count, whatever the scale -/
+theorem C04_display_length (cfg : Config) (npl : Nat) (d : Dec) (h : d.Storable) :
+    (display cfg npl {} d).length ≤ numDigits d.int.natAbs + cfg.lowThreshold + cfg.highThreshold + 30 :=
+  display_length_bound cfg npl d ⟨h.1, h.2.1⟩ h.2.2
 
 /-- non-vacuity: -12.5e-3 satisfies the hypotheses and the rendering is the expected text -/
 example : (⟨-125, 4⟩ : Dec).Storable ∧ scientific ⟨-125, 4⟩ = ['-', '1', '.', '2', '5', 'e', '-', '2'] ∧
